@@ -1,0 +1,43 @@
+//go:build verif
+
+package ysgo
+
+import (
+	"io"
+
+	"github.com/antlr4-go/antlr/v4"
+
+	"github.com/remieven/ysgo/internal/container"
+	"github.com/remieven/ysgo/internal/parser"
+	"github.com/remieven/ysgo/internal/tree"
+)
+
+// This file only exists when building with the "verif" build tag.
+// It re-exports a few internal constructors so that an external verification
+// harness can observe the parsed tree, the token stream and the containers.
+// It contains no logic of its own.
+
+// VerifFromReaders is tree.FromReaders.
+func VerifFromReaders(readers ...io.Reader) (*tree.Dialogue, error) {
+	return tree.FromReaders(readers...)
+}
+
+// VerifNewLexer is parser.NewYarnSpinnerLexer.
+func VerifNewLexer(input antlr.CharStream) *parser.YarnSpinnerLexer {
+	return parser.NewYarnSpinnerLexer(input)
+}
+
+// VerifNewParser is parser.NewYarnSpinnerParser.
+func VerifNewParser(input antlr.TokenStream) *parser.YarnSpinnerParser {
+	return parser.NewYarnSpinnerParser(input)
+}
+
+// VerifNewQueue returns an empty container.Queue.
+func VerifNewQueue[T any]() *container.Queue[T] {
+	return &container.Queue[T]{}
+}
+
+// VerifNewStack returns an empty container.Stack.
+func VerifNewStack[T any]() *container.Stack[T] {
+	return &container.Stack[T]{}
+}
